@@ -206,11 +206,120 @@ func c17Run(r *vlib.Run, env *vfrac.Env, c c17Case) {
 	}
 }
 
+// ---- nested documents: differential oracle ----
+// A document with a nested field is indexed as several metas under one ID (parent + one per array element).
+// refdb does not model per-meta totals, so these histories are judged differentially: the fraction fed with
+// the history (repeats included) must answer every request exactly like a fraction fed with every document
+// once, in the bulk of its first appearance.
+
+func c17NDoc(i int) refdb.Doc {
+	d := c17Doc(map[int]int{1: 1, 2: 2, 5: 3, 6: 4}[i])
+	if i >= 5 { // 5 and 6 are nested documents: two array elements each
+		d.ID.RID = uint64(i + 10)
+		d.Body = fmt.Sprintf(`{"id":%d,"n":[{"q":"e1"},{"q":"e%d"}]}`, i, i)
+		d.Nested = [][]refdb.Tok{{{F: "q", V: "e1"}}, {{F: "q", V: fmt.Sprintf("e%d", i)}}}
+		for k := range d.Nested { // nested metas carry the parent's tokens too (as bulk.indexer does)
+			d.Nested[k] = append(d.Nested[k], d.Toks...)
+		}
+	}
+	return d
+}
+
+type c17NCase struct {
+	Nested  bool    `json:"nested"`
+	History [][]int `json:"history"`
+}
+
+func c17NestedRun(r *vlib.Run, env *vfrac.Env, hist [][]int) {
+	build := func(h [][]int) *frac.Active {
+		a := env.NewActive(env.NextBase(), &frac.Config{})
+		for _, b := range h {
+			var blk []refdb.Doc
+			for _, i := range b {
+				blk = append(blk, c17NDoc(i))
+			}
+			if err := env.Append(a, blk); err != nil {
+				panic(err)
+			}
+		}
+		return a
+	}
+	seen := map[int]bool{}
+	var once [][]int
+	for _, b := range hist {
+		var nb []int
+		for _, i := range b {
+			if !seen[i] {
+				seen[i] = true
+				nb = append(nb, i)
+			}
+		}
+		if len(nb) > 0 {
+			once = append(once, nb)
+		}
+	}
+	queries, err := parseAll([]refdb.Query{refdb.All{}, refdb.Lit{Field: "s", Pattern: "x"}, refdb.Lit{Field: "q", Pattern: "e1"}, refdb.Lit{Field: "q", Pattern: "e5"},
+		refdb.Not{X: refdb.Lit{Field: "q", Pattern: "e1"}}, refdb.Lit{Field: "_exists_", Pattern: "q"}})
+	if err != nil {
+		panic(err)
+	}
+	answers := func(f frac.Fraction) []string {
+		var out []string
+		for _, pq := range queries {
+			for _, asc := range []bool{false, true} {
+				p := vfrac.Params(pq, 0, vfrac.MaxMID, asc, 100, true)
+				p.HistInterval = 1
+				p.AggQ = []processor.AggQuery{{Func: seq.AggFuncCount, GroupBy: wildcard("g")}}
+				qpr, err := vfrac.Search(f, p)
+				if err != nil {
+					out = append(out, "error "+err.Error())
+					continue
+				}
+				res := qpr.Aggregate([]seq.AggregateArgs{{Func: seq.AggFuncCount}})
+				out = append(out, fmt.Sprintf("%s asc=%v ids=[%s] total=%d hist=[%s] count-by-g=%s", pq.Text, asc, idsStr(vfrac.RefIDs(qpr.IDs.IDs())), qpr.Total, canonHist(qpr.Histogram), canonRealAgg(res[0])))
+			}
+		}
+		out = append(out, fmt.Sprintf("DocsTotal=%d", f.Info().DocsTotal))
+		return out
+	}
+	compare := func(stage string, got, want []string) {
+		for i := range want {
+			r.Add("evaluations", 1)
+			if got[i] != want[i] {
+				r.Violation(fmt.Sprintf("nested history=%v stage=%s: answer differs from the same documents delivered once", hist, stage), c17NCase{Nested: true, History: hist}, fmt.Sprintf("with repeats: %s\ndelivered once: %s", got[i], want[i]))
+				return
+			}
+		}
+	}
+	a, ref := build(hist), build(once)
+	compare("active", answers(a), answers(ref))
+	sp := frac.SealParams{IDsZstdLevel: 1, LIDsZstdLevel: 1, TokenListZstdLevel: 1, DocsPositionsZstdLevel: 1, TokenTableZstdLevel: 1, DocBlocksZstdLevel: 1}
+	s, err1 := env.Seal(a, sp, nil)
+	sr, err2 := env.Seal(ref, sp, nil)
+	if err1 != nil || err2 != nil {
+		r.Violation(fmt.Sprintf("nested history=%v seal-error", hist), c17NCase{Nested: true, History: hist}, fmt.Sprint(err1, err2))
+		return
+	}
+	compare("sealed", answers(s), answers(sr))
+	a.Release()
+	ref.Release()
+	s.Suicide()
+	sr.Suicide()
+	r.Add("nested_histories", 1)
+	r.Distinct("nontrivial", fmt.Sprint("nested", hist))
+}
+
 func TestVerifC17(t *testing.T) {
 	r := vlib.NewRun("C17")
 	env := vfrac.NewEnv("c17")
 	defer env.Close()
 	var rc c17Case
+	var rn c17NCase
+	if r.LoadReplay(&rn) && rn.Nested {
+		c17NestedRun(r, env, rn.History)
+		r.Finish(t, "model_checking", "replay", nil, nil)
+		return
+	}
 	if r.LoadReplay(&rc) {
 		c17Run(r, env, c17Case{History: rc.History, Rotate: rc.Rotate})
 		r.Finish(t, "model_checking", "replay", nil, nil)
@@ -250,7 +359,59 @@ func TestVerifC17(t *testing.T) {
 			}
 		}
 	}
-	r.Note("bulks=%d histories=%d", len(bulks), len(cases))
+	// nested documents: histories of <=3 bulks (ordered subsets of <=3 IDs) over {1, 2, 5, 6} (5, 6 nested) with a repeat
+	var nbulks [][]int
+	var recN func(cur []int, used int)
+	nids := []int{1, 2, 5, 6}
+	recN = func(cur []int, used int) {
+		if len(cur) > 0 {
+			nbulks = append(nbulks, append([]int{}, cur...))
+		}
+		if len(cur) == 3 {
+			return
+		}
+		for k, i := range nids {
+			if used&(1<<k) == 0 {
+				recN(append(cur, i), used|1<<k)
+			}
+		}
+	}
+	recN(nil, 0)
+	var ncases [][][]int
+	hasRepeat := func(h [][]int) bool {
+		seen := map[int]bool{}
+		for _, b := range h {
+			for _, i := range b {
+				if seen[i] {
+					return true
+				}
+				seen[i] = true
+			}
+		}
+		return false
+	}
+	for _, b1 := range nbulks {
+		for _, b2 := range nbulks {
+			if h := [][]int{b1, b2}; hasRepeat(h) {
+				ncases = append(ncases, h)
+			}
+			if !r.Thorough() {
+				continue
+			}
+			for _, b3 := range nbulks {
+				if h := [][]int{b1, b2, b3}; len(b3) <= 2 && hasRepeat(h) {
+					ncases = append(ncases, h)
+				}
+			}
+		}
+	}
+	vlib.Parallel(len(ncases), 0, func(i int) {
+		if r.Expired() {
+			return
+		}
+		c17NestedRun(r, env, ncases[i])
+	})
+	r.Note("bulks=%d histories=%d nested_histories=%d", len(bulks), len(cases), len(ncases))
 	r.Sample(c17Case{History: [][]int{{1, 2, 3}, {3, 1}, {4, 2}}, Rotate: false})
 	vlib.Parallel(len(cases), 0, func(i int) {
 		if r.Expired() {
@@ -260,9 +421,9 @@ func TestVerifC17(t *testing.T) {
 	})
 	ev := r.Get("evaluations")
 	r.Finish(t, "model_checking",
-		"ID universe {1..4} (documents with 3,4,5 and 2 tokens, shared and private), a bulk = any ordered subset of <=3 distinct IDs (40 bulks); every history of <=3 bulks (quick: third bulk of <=2 IDs) in one active fraction, plus the variant where the first bulk lands in an earlier sealed fraction; judged on the active fraction, after sealing and after reopening from files: 6 queries x both orders (ids; for same-fraction repeats also total, histogram, count and sum aggregations, Info.DocsTotal) and fetch of every ID. non-trivial = histories that contain at least one repeated ID",
+		"ID universe {1..4} (documents with 3,4,5 and 2 tokens, shared and private), a bulk = any ordered subset of <=3 distinct IDs (40 bulks); every history of <=3 bulks (quick: third bulk of <=2 IDs) in one active fraction, plus the variant where the first bulk lands in an earlier sealed fraction; judged on the active fraction, after sealing and after reopening from files: 6 queries x both orders (ids; for same-fraction repeats also total, histogram, count and sum aggregations, Info.DocsTotal) and fetch of every ID. Nested documents (several metas under one ID): every history of 2 (thorough 3) bulks over {1, 2, two nested documents} containing a repeat, judged differentially against a fraction fed with every document once (ids, total, histogram, count aggregation, DocsTotal; active and sealed). non-trivial = histories that contain at least one repeated ID",
 		map[string]any{
-			"states":                        r.Get("histories"),
+			"states":                        r.Get("histories") + r.Get("nested_histories"),
 			"transitions":                   ev,
 			"traces_validated_against_impl": ev,
 		},
